@@ -1,6 +1,7 @@
 import ALock.Props.C01
 import ALock.Props.C03
 import ALock.Lemmas.RwLockWake
+import ALock.Props.C02
 
 /-!
 # C14 — `try_*` operations are exact when uncontended and never wait
@@ -188,3 +189,30 @@ example :
     (RwLock.step (RwLock.next s (.dropGuard 2)) (.conv 0 .tryUpgrade)).2 = .ok := by decide
 
 end ALock
+
+namespace ALock.Accept
+
+/-- **C14 ("never succeeds in conflict", executions of the real crate with injected preemptions).**
+Whatever `try_*` calls (and polls, drops, conversions) of up to `n` agents are interleaved at the
+granularity of single atomic operations: if the recorded trace is accepted, no conflicting guards
+exist at its end — one mutex holder; one writer and then no reader, one upgradable reader; no more
+permits out than exist. -/
+theorem C14_accepted_mutex (n : Nat) (tr : List TEv) (st' : Mutex.St)
+    (h : Mutex.acceptAll (Mutex.init n) tr = .ok st') : ALock.Atomic.Mutex.holders st'.sys ≤ 1 :=
+  (Mutex.C01_accepted n tr st' h).1
+
+theorem C14_accepted_rwlock (n : Nat) (tr : List TEv) (st' : RwLock.St)
+    (h : RwLock.acceptAll (RwLock.init n) tr = .ok st') :
+    ALock.Atomic.RwLock.writers st'.sys.ags ≤ 1 ∧
+    (1 ≤ ALock.Atomic.RwLock.writers st'.sys.ags → ALock.Atomic.RwLock.readers st'.sys.ags = 0) ∧
+    ALock.Atomic.RwLock.upgradables st'.sys.ags ≤ 1 :=
+  let ⟨a, b, c, _⟩ := RwLock.C02_accepted n tr st' h
+  ⟨a, b, c⟩
+
+theorem C14_accepted_sem (n p : Nat) (tr : List TEv) (st' : Sem.St)
+    (h : Sem.acceptAll (Sem.init n p) tr = .ok st') :
+    ALock.Atomic.Sem.issued st'.sys + st'.sys.forgotten ≤ p + st'.sys.added := by
+  have := Sem.C03_accepted n p tr st' h
+  omega
+
+end ALock.Accept
